@@ -4,6 +4,7 @@ package interp
 // native implementation (bodies) used for replay; here the calls are intercepted by name.
 
 import (
+	"encoding/hex"
 	"fmt"
 	"go/types"
 	"path/filepath"
@@ -117,6 +118,29 @@ func init() {
 				out[k] = fr.i.x.fresh(fmt.Sprintf("%s[%d]", args[0].(string), k), sBV8, "uint8")
 			}
 			return out
+		},
+		"Pin": func(fr *frame, args []value) value {
+			// concrete bytes computed by the harness (e.g. a stored stream whose layout depends on map iteration order):
+			// recorded with the path so that the native replay works on the very same bytes
+			x := fr.i.x
+			in := args[1].([]value)
+			buf := make([]byte, len(in))
+			for k, e := range in {
+				c, ok := e.(uint8)
+				if !ok {
+					panic(unsupported("verif.Pin of symbolic bytes"))
+				}
+				buf[k] = c
+			}
+			label := args[0].(string)
+			occ := 0
+			for _, p := range x.pins {
+				if p.Label == label {
+					occ++
+				}
+			}
+			x.pins = append(x.pins, ModelVal{Label: label, Occ: occ, Type: "pin", Str: hex.EncodeToString(buf), IsStr: true})
+			return in
 		},
 		"Choice": func(fr *frame, args []value) value {
 			return fr.i.x.choice(args[1].(int), args[0].(string))
